@@ -1481,6 +1481,8 @@ def tie_C14(ctx):
         cases.append([f"timer 0 {rd_hex(rs)}", "jit 1 0", "testtimer 1", "u32 1"])
         ctx.dist["jitter-hostile-test_timer"] += 1
     cases.append(["timer 0 1,2,3", "jit 1 0", "rounds 1 0"])
+    # JitterRng::new() on the real clock (std feature): Ok or Err, never a panic; twice (second call uses the cached rounds)
+    cases.append(["jitnew", "jitnew", "jitnew"])
     # test_timer at every row of the rounds table and around every log2 boundary (indexing, division)
     for m in list(range(0, 41)) + [v for k in range(5, 34) for v in ((1 << k) - 1, 1 << k, (1 << k) + 1)]:
         a = rng.randrange(1, 90)
